@@ -31,6 +31,9 @@ pub struct Case {
     pub invalid: Option<&'static str>,
     pub nparas: usize,
     pub multiline: bool,
+    /// Some(how): the text is a perturbed document; only the clause "whenever a text parses, print -> reparse is equal and
+    /// the second print identical" applies (the reader may as well reject it)
+    pub any_text: Option<&'static str>,
 }
 
 type Image = Vec<(String, String)>;
@@ -103,9 +106,28 @@ fn lines_set(v: &str) -> Vec<String> {
 }
 
 pub fn check(case: &Case) -> CheckResult {
+    check_ctx(None, case)
+}
+
+pub fn check_ctx(ctx: Option<&mut Ctx>, case: &Case) -> CheckResult {
     let kind = case.kind;
     let text = &case.text;
     let parsed = parse_kind(kind, text);
+    if case.any_text.is_some() {
+        let v = match parsed {
+            Ok(v) => v,
+            Err(_) => {
+                if let Some(c) = ctx {
+                    c.label("any-text:rejected");
+                }
+                return Ok(());
+            }
+        };
+        if let Some(c) = ctx {
+            c.label("any-text:accepted");
+        }
+        return stability(kind, text, &v);
+    }
     if let Some(why) = case.invalid {
         ensure!(parsed.is_err(), format!("rejects/{}", why), "{:?} document violating a structural rule ({}) is accepted: {:?}", kind, why, text);
         return Ok(());
@@ -131,7 +153,11 @@ pub fn check(case: &Case) -> CheckResult {
     }
     // sanity of the generator against the lossless reader (the raw values are what it shows)
     ensure!(Deb822::from_str(text).is_ok(), "lossless-accepts", "the lossless reader rejects the well-formed document {:?}", text);
-    // print / reparse stability
+    stability(kind, text, &v)
+}
+
+/// print / reparse stability of a typed value that was read from `text`
+fn stability(kind: Kind, text: &str, v: &Typed) -> CheckResult {
     let s1 = &v.print;
     let v2 = match parse_kind(kind, s1) {
         Ok(v2) => v2,
@@ -316,7 +342,89 @@ pub fn gen_case(t: &mut Tape, kind: Kind, invalid: bool) -> Case {
         };
     }
     let multiline = paras.iter().any(|p| p.fields.iter().any(|f| f.value.lines.len() > 1));
-    Case { kind, text, expected: if inv.is_some() { None } else { Some(expected) }, invalid: inv, nparas: paras.len(), multiline }
+    Case { kind, text, expected: if inv.is_some() { None } else { Some(expected) }, invalid: inv, nparas: paras.len(), multiline, any_text: None }
+}
+
+const PERTURBATIONS: &[&str] = &["any-text:random-edits", "any-text:whitespace-only-continuation-line", "any-text:indented-hash-line", "any-text:value-of-another-field", "any-text:folded-value", "any-text:duplicated-field", "any-text:crlf", "any-text:cut", "any-text:multibyte-value"];
+
+/// A perturbed document of the given kind: mostly still accepted by the typed reader, no longer "well-formed" in
+/// the sense of the field tables.
+pub fn perturb(t: &mut Tape, kind: Kind) -> Case {
+    let base = gen_case(t, kind, false);
+    let how = t.below(PERTURBATIONS.len());
+    let lines: Vec<String> = base.text.split_inclusive('\n').map(|s| s.to_string()).collect();
+    let text = match how {
+        0 => crate::gen::text::mutate(t, &base.text, crate::props::c01::WEIGHTED, 3),
+        1 | 2 if !lines.is_empty() => {
+            let at = t.range(1, lines.len());
+            let ins = if how == 1 { *t.pick(&[" \n", "\t\n", "   \n", " \t \n"]) } else { *t.pick(&[" # note\n", " #\n", "\t#x\n", " #a b\n"]) };
+            let mut l = lines.clone();
+            if !l[at - 1].ends_with('\n') {
+                l[at - 1].push('\n');
+            }
+            l.insert(at, ins.to_string());
+            l.concat()
+        }
+        3 if lines.len() >= 2 => {
+            // the value of field i becomes the value of field j
+            let fl: Vec<usize> = (0..lines.len()).filter(|&i| !lines[i].starts_with([' ', '\t', '#', '\n']) && lines[i].contains(':')).collect();
+            if fl.len() < 2 {
+                base.text.clone()
+            } else {
+                let i = fl[t.below(fl.len())];
+                let j = fl[t.below(fl.len())];
+                let mut l = lines.clone();
+                let vi = l[j][l[j].find(':').unwrap() + 1..].to_string();
+                let ni = l[i][..l[i].find(':').unwrap() + 1].to_string();
+                l[i] = format!("{}{}", ni, vi);
+                if !l[i].ends_with('\n') {
+                    l[i].push('\n');
+                }
+                l.concat()
+            }
+        }
+        4 => {
+            let chars: Vec<char> = base.text.chars().collect();
+            let blanks: Vec<usize> = (1..chars.len().saturating_sub(1)).filter(|&i| chars[i] == ' ' && chars[i - 1] != '\n' && chars[i - 1] != ':' && chars[i + 1] != '\n').collect();
+            if blanks.is_empty() {
+                base.text.clone()
+            } else {
+                let b = blanks[t.below(blanks.len())];
+                let mut c = chars.clone();
+                c.insert(b, '\n');
+                c.into_iter().collect()
+            }
+        }
+        5 if !lines.is_empty() => {
+            let i = t.below(lines.len());
+            let mut l = lines.clone();
+            let mut dup = l[i].clone();
+            if !dup.ends_with('\n') {
+                dup.push('\n');
+                l[i].push('\n');
+            }
+            let at = t.range(0, l.len());
+            l.insert(at, dup);
+            l.concat()
+        }
+        6 => base.text.replace('\n', "\r\n"),
+        7 => {
+            let chars: Vec<char> = base.text.chars().collect();
+            chars[..t.below(chars.len() + 1)].iter().collect()
+        }
+        _ => {
+            let fl: Vec<usize> = (0..lines.len()).filter(|&i| !lines[i].starts_with([' ', '\t', '#', '\n']) && lines[i].contains(':')).collect();
+            if fl.is_empty() {
+                base.text.clone()
+            } else {
+                let i = fl[t.below(fl.len())];
+                let mut l = lines.clone();
+                l[i] = format!("{} {}\n", &l[i][..l[i].find(':').unwrap() + 1], crate::props::c02::multibyte_run(t));
+                l.concat()
+            }
+        }
+    };
+    Case { kind, text, expected: None, invalid: None, nparas: base.nparas, multiline: base.multiline, any_text: Some(PERTURBATIONS[how]) }
 }
 
 impl PropImpl for C20 {
@@ -327,7 +435,8 @@ impl PropImpl for C20 {
     fn rule(&self) -> String {
         "cases are documents of 9 kinds (control file, copyright file, apt Release / Sources / Packages stanza, removal record, buildinfo, DEP-3 header incl. the From/Subject forms, APT sources list) generated from \
          field tables (mandatory fields, optional fields toggled, fields in table or shuffled order, multi-line values, comments, varied spacing, several paragraphs in any order) whose values come from the declared \
-         type of each field; plus structurally invalid variants (no / two Source paragraphs, a paragraph of neither kind, a missing mandatory field, a copyright text not starting with Format:). Oracle: typed value \
+         type of each field; plus structurally invalid variants (no / two Source paragraphs, a paragraph of neither kind, a missing mandatory field, a copyright text not starting with Format:). Plus, in one case of four, a perturbed document (random edits, a whitespace-only continuation line, an indented '#' line, a field receiving another field's value, a folded value, a duplicated field, CR LF line ends, a cut, a multi-byte run as value): \
+         if the typed reader accepts it, only the print/reparse clause is checked. Oracle: typed value \
          image (to_paragraph) = expected reading of the raw fields in declaration order; print -> reparse gives equal images and an identical second print; invalid variants give Err. Non-trivial: >= 2 paragraphs, \
          or a multi-line value, or both present and absent optional fields. Distinct by (kind, text) hash.".into()
     }
@@ -338,7 +447,7 @@ impl PropImpl for C20 {
         ]
     }
     fn expected_labels(&self) -> Vec<&'static str> {
-        vec!["kind:control", "kind:copyright", "kind:apt-release", "kind:apt-source", "kind:apt-package", "kind:removal", "kind:buildinfo", "kind:dep3", "kind:apt-sources", "invalid:no-source-paragraph", "invalid:two-source-paragraphs", "invalid:paragraph-of-neither-kind", "invalid:not-starting-with-format", "invalid:missing-mandatory-field", "well-formed", "has-comment", "has-multi-line-value", "dep3-mail-header-form"]
+        vec!["kind:control", "kind:copyright", "kind:apt-release", "kind:apt-source", "kind:apt-package", "kind:removal", "kind:buildinfo", "kind:dep3", "kind:apt-sources", "invalid:no-source-paragraph", "invalid:two-source-paragraphs", "invalid:paragraph-of-neither-kind", "invalid:not-starting-with-format", "invalid:missing-mandatory-field", "well-formed", "has-comment", "has-multi-line-value", "dep3-mail-header-form", "any-text:accepted", "any-text:rejected", "any-text:random-edits", "any-text:whitespace-only-continuation-line", "any-text:indented-hash-line", "any-text:value-of-another-field", "any-text:folded-value", "any-text:duplicated-field", "any-text:crlf", "any-text:cut", "any-text:multibyte-value"]
     }
     fn budget(&self, tier: Tier) -> Budget {
         Budget { cases_per_lane: if tier == Tier::Quick { 7500 } else { 40_000 }, tape_max: 600, cpu_s: 10 }
@@ -348,6 +457,9 @@ impl PropImpl for C20 {
     }
     fn decode(&self, _ctx: &mut Ctx, t: &mut Tape) -> Case {
         let kind = KINDS[t.below(KINDS.len())];
+        if t.chance(1, 4) {
+            return perturb(t, kind);
+        }
         let invalid = t.chance(1, 5) && kind != Kind::Dep3;
         gen_case(t, kind, invalid)
     }
@@ -364,7 +476,9 @@ impl PropImpl for C20 {
             Kind::Dep3 => "kind:dep3",
             Kind::AptSources => "kind:apt-sources",
         });
-        if let Some(w) = case.invalid {
+        if let Some(how) = case.any_text {
+            ctx.label(how);
+        } else if let Some(w) = case.invalid {
             ctx.label(match w {
                 "no-source-paragraph" => "invalid:no-source-paragraph",
                 "two-source-paragraphs" => "invalid:two-source-paragraphs",
@@ -380,10 +494,10 @@ impl PropImpl for C20 {
         ctx.label_if(case.text.contains("From:") || case.text.contains("Subject:"), "dep3-mail-header-form");
         ctx.nontrivial = case.nparas >= 2 || case.multiline || case.expected.as_ref().map(|e| e.iter().any(|p| p.len() >= 3)).unwrap_or(false);
     }
-    fn check(&self, _ctx: &mut Ctx, case: &Case) -> CheckResult {
-        check(case)
+    fn check(&self, ctx: &mut Ctx, case: &Case) -> CheckResult {
+        check_ctx(Some(ctx), case)
     }
     fn render(&self, case: &Case) -> String {
-        format!("{:?} {} document {:?}", case.kind, case.invalid.unwrap_or("well-formed"), case.text)
+        format!("{:?} {} document {:?}", case.kind, case.any_text.or(case.invalid).unwrap_or("well-formed"), case.text)
     }
 }
